@@ -121,9 +121,18 @@ def build(rnd, big=False):
         secs.append(dict(name=".got", addr=got["addr"], blob=None, size=got["size"]))
     if has_stack:
         secs.append(dict(name=".stack", addr=stack_size, blob=None, size=rnd.choice([0, stack_size])))
+    # the symbol names live in the string table the symbol table LINKS to, whatever that section is called; sometimes a
+    # decoy section named .strtab with different contents is present
+    strname = ".strtab" if rnd.random() < 0.7 else rnd.choice([".symstr", ".dynstr", ".names"])
     if has_symtab:
-        secs.append(dict(name=".symtab", addr=0, blob=symtab, size=len(symtab), link=".strtab", entsize=16))
-    secs.append(dict(name=".strtab", addr=0, blob=bytes(strtab), size=len(strtab)))
+        secs.append(dict(name=".symtab", addr=0, blob=symtab, size=len(symtab), link=strname, entsize=16))
+    secs.append(dict(name=strname, addr=0, blob=bytes(strtab), size=len(strtab)))
+    if strname != ".strtab":
+        decoy = bytearray(strtab)
+        for k in range(1, len(decoy)):
+            if decoy[k] == ord("_"):
+                decoy[k] = ord("x")
+        secs.append(dict(name=".strtab", addr=0, blob=b"\0___exit\0" + bytes(decoy[1:]), size=len(decoy) + 8))
     secs.append(dict(name=".shstrtab", addr=0, blob=None, size=0))
     rnd.shuffle(secs)
     secs.insert(0, dict(name="", addr=0, blob=None, size=0))
